@@ -1013,3 +1013,132 @@ func ruleSNOEMPTY(p *Program, r *Reporter) {
 		r.Anchor(id, "stores into TableUpdates/TableUpdates2 in the notification filters")
 	}
 }
+
+// ---------------------------------------------------------------------------
+// ERR-NILRET — a function that reports failures through an error result does
+// not report success on the branch where an error it just tested is set: the
+// failing edge of an error test does not lead straight (without any other
+// branch) to a return whose error result is the constant nil.
+
+func errNilRetSites(p *Program, pkgs map[string]bool, report func(fn *ssa.Function, iff *ssa.If, ret *ssa.Return, name string)) {
+	errT := types.Universe.Lookup("error").Type()
+	discoverErrUse(p, pkgs, func(fn *ssa.Function, ev ssa.Value, iff *ssa.If, used, returns bool) {
+		res := fn.Signature.Results()
+		if res.Len() == 0 || !types.Identical(res.At(res.Len()-1).Type(), errT) {
+			return
+		}
+		b := iff.Block()
+		bo, ok := iff.Cond.(*ssa.BinOp)
+		if !ok {
+			return
+		}
+		bad := b.Succs[0]
+		if bo.Op == token.EQL {
+			bad = b.Succs[1]
+		}
+		// follow unconditional jumps
+		for i := 0; i < 4; i++ {
+			if len(bad.Instrs) == 1 {
+				if _, isJ := bad.Instrs[0].(*ssa.Jump); isJ && len(bad.Succs) == 1 {
+					bad = bad.Succs[0]
+					continue
+				}
+			}
+			break
+		}
+		ret, isRet := bad.Instrs[len(bad.Instrs)-1].(*ssa.Return)
+		if !isRet || len(bad.Preds) != 1 && bad != b.Succs[0] && bad != b.Succs[1] {
+			return
+		}
+		// only the instructions of a plain return block: no call that could consume the error
+		for _, ins := range bad.Instrs {
+			switch ins.(type) {
+			case *ssa.Return, *ssa.DebugRef, *ssa.UnOp, *ssa.RunDefers:
+			default:
+				return
+			}
+		}
+		rv := retValue(ret, len(ret.Results)-1)
+		if k, isC := rv.(*ssa.Const); !isC || !k.IsNil() {
+			// a named result that is never assigned reads as the zero value of its cell
+			ld, isLd := rv.(*ssa.UnOp)
+			if !isLd {
+				return
+			}
+			al, isAl := ld.X.(*ssa.Alloc)
+			if !isAl {
+				return
+			}
+			stored := false
+			if refs := al.Referrers(); refs != nil {
+				for _, rf := range *refs {
+					if st, ok := rf.(*ssa.Store); ok && st.Addr == ssa.Value(al) {
+						stored = true
+					}
+				}
+			}
+			if stored {
+				return
+			}
+		}
+		name := "error"
+		switch x := ev.(type) {
+		case *ssa.Call:
+			if sc := x.Call.StaticCallee(); sc != nil {
+				name = sc.Name()
+			}
+		case *ssa.Extract:
+			if c, ok := x.Tuple.(*ssa.Call); ok {
+				if sc := c.Call.StaticCallee(); sc != nil {
+					name = sc.Name()
+				}
+			}
+		}
+		report(fn, iff, ret, name)
+	})
+}
+
+var errNilRetAllowed = map[string]string{
+	"(*cache.RowCache).IndexExists|FieldByColumn": "a model without a _uuid field cannot be in any index: nothing to report (models are validated to have one when the database model is built)",
+	"(*ovsdb.OvsMap).UnmarshalJSON|Unmarshal":     "lenient decoding kept as found: bytes that are not a JSON array decode to the empty map (reported by a seeding agent, DESIGN.md section 10; not reachable from Row decoding, which only hands arrays tagged \"map\" to this decoder)",
+}
+
+func ruleERRNILRET(p *Program, r *Reporter) {
+	const id = "ERR-NILRET"
+	all := map[string]bool{}
+	for _, k := range analysedPkgs {
+		if k != "cmd/modelgen" && k != "cmd/print_schema" && k != "cmd/stress" {
+			all[k] = true
+		}
+	}
+	// every tested error is an instance; the offending ones are reported by errNilRetSites
+	bad := map[*ssa.If]string{}
+	badRet := map[*ssa.If]*ssa.Return{}
+	errNilRetSites(p, all, func(fn *ssa.Function, iff *ssa.If, ret *ssa.Return, name string) {
+		bad[iff] = name
+		badRet[iff] = ret
+	})
+	errT := types.Universe.Lookup("error").Type()
+	discoverErrUse(p, all, func(fn *ssa.Function, ev ssa.Value, iff *ssa.If, used, returns bool) {
+		res := fn.Signature.Results()
+		if res.Len() == 0 || !types.Identical(res.At(res.Len()-1).Type(), errT) {
+			return
+		}
+		name, isBad := bad[iff]
+		ok, why := !isBad, "the failing branch does not return a nil error straight away"
+		if isBad {
+			if reason, allowed := errNilRetAllowed[funcName(fn)+"|"+name]; allowed {
+				ok, why = true, "listed exception: "+reason
+			} else {
+				why = "the error of " + name + " is tested and, when set, the function returns a nil error at once (" + p.Pos(badRet[iff].Pos()) + "): the failure is reported to the caller as success"
+			}
+		} else {
+			name = "a call"
+		}
+		pos := iff.Cond.Pos()
+		if ex, isEx := iff.Cond.(*ssa.Extract); isEx && !pos.IsValid() {
+			pos = ex.Tuple.Pos()
+		}
+		r.Ob(id, funcName(fn), "tested error not answered with a nil error", pos, ok, isBad, why)
+	})
+}
